@@ -14,6 +14,7 @@ import json
 import random
 
 from . import common, gen, valgen, valcheck
+from .gen import N
 
 C06_FILES = ["Properties/C06.v", "Proofs/ValidateProofs.v"]
 
@@ -36,6 +37,30 @@ def hand_docs(s):
          "fragment G on Query { ...H ...H __typename } fragment F on Query { ...H } fragment H on Query { __typename }")
     out.append({"text": q, "variables": {}, "opname": "A", "rule": None, "where": "diamond, repeated spreads, defined after use"})
     return out
+
+
+def cross_engine_schemas():
+    """two schemas sharing type names whose possible types differ (engines live in one process and share the rule objects)"""
+    from collections import OrderedDict
+
+    def mk(members, impl):
+        types = OrderedDict()
+        for o in ("Cat", "Dog", "Bird"):
+            types[o] = {"kind": "OBJECT", "interfaces": ["Named"] if o in impl else [], "fields": [
+                {"name": "name", "type": N("String"), "args": []}]}
+        types["Named"] = {"kind": "INTERFACE", "fields": [{"name": "name", "type": N("String"), "args": []}]}
+        types["Pet"] = {"kind": "UNION", "members": members}
+        types["Query"] = {"kind": "OBJECT", "interfaces": [], "fields": [
+            {"name": "pet", "type": N("Pet"), "args": []}, {"name": "named", "type": N("Named"), "args": []}]}
+        s = {"types": types, "query": "Query", "mutation": None, "subscription": None, "directives": []}
+        s["resolvers"] = {("Query", "pet"), ("Query", "named")}
+        s["type_resolvers"], s["field_type_resolvers"] = set(), set()
+        return s
+    a = mk(["Cat", "Dog"], ["Cat", "Dog"])
+    b = mk(["Cat", "Bird"], ["Bird"])
+    docs_a = ["{ pet { ...F } named { ... on Dog { name } } } fragment F on Dog { name }"]
+    docs_b = ["{ pet { ...F ... on Bird { name } } named { ...G } } fragment F on Bird { name } fragment G on Bird { name }"]
+    return (a, docs_a), (b, docs_b)
 
 
 def gen_items(rng, s, n_docs):
@@ -104,6 +129,14 @@ def main(tier_, replay=None):
             if "doc" in it:
                 for k in features(it["doc"]):
                     feats[k] = feats.get(k, 0) + 1
+    # the same type names with other possible types on a second engine of the same process, in both orders
+    for order in (0, 1):
+        pair = cross_engine_schemas()
+        for s, docs in (pair if order == 0 else pair[::-1]):
+            items = [{"text": q, "variables": {}, "opname": None, "rule": None,
+                      "where": "second engine sharing type names with another schema (order %d)" % order} for q in docs]
+            obs = asyncio.run(valcheck.run_docs(s, items))
+            batches.append((s, list(zip(items, obs))))
     problems = valcheck.evaluate("C06_s%d" % seed, batches)
     for fname, err in problems[:2]:
         rep.violation({"property": "C06", "what": "case file failed to evaluate", "file": fname, "stderr": err}, no_input=True)
